@@ -77,7 +77,8 @@ def _worker(args):
 
 def load_property(prop):
     from pyvc import api
-    importlib.import_module("contracts.%s" % prop)
+    if os.path.exists(os.path.join(VERIF, "contracts", "%s.py" % prop)):
+        importlib.import_module("contracts.%s" % prop)
     return api.HARNESSES.get(prop, [])
 
 
